@@ -216,6 +216,27 @@ Fixpoint hist_side (ds : dstate) (st : hstate) (h : list hstep) : bool :=
     && hist_side (dapply_step ds x) (apply_step cmd (inline g hid) st x) h'
   end.
 
+(* a side condition that does not mention the scans: whenever a build is requested, every hidden
+   read that is a source file exists and the targets are nodes of the manifest.  Then the two
+   variants accept or refuse together (HistDepsProofs.accept_equiv) *)
+Definition hidden_srcs_present (st : hstate) : bool :=
+  edges_all g (fun e =>
+    forallb (fun i => negb (is_source g i) || match h_disk st i with Some _ => true | None => false end)
+            (hid e)).
+Definition targets_known (targets : list node) : bool :=
+  forallb (fun t => negb (g_byloader g t)) targets.
+
+Fixpoint hist_present (ds : dstate) (h : list hstep) : bool :=
+  match h with
+  | [] => true
+  | x :: h' =>
+    match x with
+    | Build targets => hidden_srcs_present (d_h ds) && targets_known targets
+    | _ => true
+    end
+    && hist_present (dapply_step ds x) h'
+  end.
+
 (* ------------------------------------------------------------------ the invariant about records *)
 (* (i) every record in the deps log belongs to an output of a deps statement and lists exactly its
    hidden reads; an output of a deps statement that has a build-log entry has a record that is
@@ -280,7 +301,8 @@ Example same_as_inlined :
   let ds := drun_hist cmd g hid ds0 hist in
   h_trace (d_h ds) = h_trace st /\ contents ds = map (content_of st) [0; 1; 2; 3; 4; 5]%nat /\
   h_clock (d_h ds) = h_clock st /\
-  hist_ok g hist = true /\ hist_side cmd g hid ds0 (init_hstate gi) hist = true.
+  hist_ok g hist = true /\ hist_side cmd g hid ds0 (init_hstate gi) hist = true /\
+  hist_present cmd g hid ds0 hist = true.
 Proof. vm_compute. repeat split; reflexivity. Qed.
 
 (* a missing hidden read that has no rule: the statement is dirty, not an error; the inlined
